@@ -219,126 +219,6 @@ Proof.
 Qed.
 End Refine.
 
-(* ------------------------------------------------------------------ undirected input: orientation by role *)
-
-Lemma find_app_none {A} (p : A -> bool) l1 l2 : (forall x, In x l1 -> p x = false) -> find p (l1 ++ l2) = find p l2.
-Proof.
-  induction l1 as [|a l1 IH]; intros H; simpl; [reflexivity|]. rewrite (H a (or_introl eq_refl)). apply IH.
-  intros x I. apply H. right. exact I.
-Qed.
-Lemma find_map_some {A B} (p : B -> bool) (g : A -> B) l rest x : In x l -> p (g x) = true ->
-  exists x', In x' l /\ p (g x') = true /\ find p (map g l ++ rest) = Some (g x').
-Proof.
-  induction l as [|a l IH]; intros I Hp; [destruct I|]. simpl. destruct (p (g a)) eqn:E.
-  - exists a. split; [left; reflexivity|]. split; [exact E|reflexivity].
-  - destruct I as [->|I]; [congruence|]. destruct (IH I Hp) as (x' & I' & Hp' & F). exists x'. split; [right; exact I'|]. split; assumption.
-Qed.
-
-(** an undirected edge is a re-orientation of a directed arc: same attributes, same two ends *)
-Definition reor (e x : rarc) : Prop :=
-  ra_role e = ra_role x /\ ra_stoich e = ra_stoich x /\
-  ((ra_u e = ra_u x /\ ra_v e = ra_v x) \/ (ra_u e = ra_v x /\ ra_v e = ra_u x)).
-
-Section Orient.
-Variables (ids idr : str -> N) (net : list rxn) (iso : list str).
-Hypothesis ids_inj : forall s s', In s (species_set net iso) -> In s' (species_set net iso) -> ids s = ids s' -> s = s'.
-Hypothesis idr_inj : forall e e', In e net -> In e' net -> idr (rid e) = idr (rid e') -> rid e = rid e'.
-Hypothesis disjoint : forall s e, In s (species_set net iso) -> In e net -> ids s <> idr (rid e).
-(** the sides are dicts: no two incidences with the same species, reaction and role *)
-Hypothesis keys_nodup : NoDup (map (fun a => (a_species a, a_rxn a, a_role a)) (bip_arcs net)).
-
-Let G := raw_export ids idr net iso.
-Let ns := rg_nodes G.
-Notation gsn := (gsn ids).
-Notation grn := (grn idr).
-Notation gan := (gan ids idr).
-
-Lemma ns_eq : ns = map gsn (species_set net iso) ++ map grn (edges_sorted net).
-Proof. reflexivity. Qed.
-
-Lemma is_rxn_species s : In s (species_set net iso) -> u_is_rxn ns (ids s) = false.
-Proof.
-  intros I. unfold u_is_rxn, node_of. rewrite ns_eq.
-  destruct (find_map_some (fun n => N.eqb (rn_id n) (ids s)) gsn (species_set net iso) (map grn (edges_sorted net)) s I (N.eqb_refl _))
-    as (s' & _ & _ & ->). reflexivity.
-Qed.
-Lemma is_rxn_reaction e : In e net -> u_is_rxn ns (idr (rid e)) = true.
-Proof.
-  intros I. unfold u_is_rxn, node_of. rewrite ns_eq. rewrite find_app_none.
-  - rewrite <- (app_nil_r (map grn (edges_sorted net))).
-    destruct (find_map_some (fun n => N.eqb (rn_id n) (idr (rid e))) grn (edges_sorted net) [] e
-                (proj2 (in_edges_sorted net e) I) (N.eqb_refl _)) as (e' & _ & _ & ->). reflexivity.
-  - intros x Ix. apply in_map_iff in Ix. destruct Ix as (s & <- & Is). simpl. apply N.eqb_neq. apply disjoint; assumption.
-Qed.
-
-Definition okA (a : arc) : Prop := In (a_species a) (species_set net iso) /\ exists e, In e net /\ a_rxn a = rid e.
-Lemma okA_bip a : In a (bip_arcs net) -> okA a.
-Proof.
-  intros I. destruct (proj1 (Forall_forall _ _) (C17_Nodes.arcs_ok idr net iso idr_inj) a I) as (Is & e & Ie & Er).
-  split; [apply sp_in; exact Is|]. exists e. split; [apply rx_in; exact Ie|exact Er].
-Qed.
-
-Lemma orient_pair_export a e : okA a -> reor e (gan a) -> orient_pair ns e = (ra_u (gan a), ra_v (gan a)).
-Proof.
-  intros (Is & e' & Ie' & Er) (Hr & _ & Hor). unfold orient_pair. rewrite Hr.
-  pose proof (is_rxn_species _ Is) as Hs. pose proof (is_rxn_reaction _ Ie') as Hx. rewrite <- Er in Hx.
-  unfold C19_NodesProof.gan in *. destruct (a_role a); simpl in *; destruct Hor as [[-> ->]|[-> ->]]; rewrite ?Hs, ?Hx; reflexivity.
-Qed.
-
-Lemma gan_pair_inj a a' : okA a -> okA a' ->
-  ra_u (gan a) = ra_u (gan a') -> ra_v (gan a) = ra_v (gan a') ->
-  (a_species a, a_rxn a, a_role a) = (a_species a', a_rxn a', a_role a').
-Proof.
-  intros (Is & e & Ie & Er) (Is' & e' & Ie' & Er'). unfold C19_NodesProof.gan.
-  destruct (a_role a), (a_role a'); simpl; intros H1 H2.
-  - rewrite (ids_inj _ _ Is Is' H1). rewrite Er, Er' in *. rewrite (idr_inj _ _ Ie Ie' H2). reflexivity.
-  - exfalso. rewrite Er' in H1. exact (disjoint _ _ Is Ie' H1).
-  - exfalso. rewrite Er in H1. exact (disjoint _ _ Is' Ie (eq_sym H1)).
-  - rewrite (ids_inj _ _ Is Is' H2). rewrite Er, Er' in *. rewrite (idr_inj _ _ Ie Ie' H1). reflexivity.
-Qed.
-
-Lemma rarc_eta x : RArc (ra_u x) (ra_v x) (ra_role x) (ra_stoich x) = x.
-Proof. destruct x; reflexivity. Qed.
-
-Lemma orient_fold L : Forall okA L -> NoDup (map (fun a => (a_species a, a_rxn a, a_role a)) L) ->
-  forall E D0, Forall2 reor E (map gan L) ->
-  (forall x a, In x D0 -> In a L -> ~ (ra_u x = ra_u (gan a) /\ ra_v x = ra_v (gan a))) ->
-  fold_left (orient_step ns) E D0 = D0 ++ map gan L.
-Proof.
-  induction L as [|a L IH]; intros Hok Hnd E D0 HE Hfree.
-  - inversion HE; subst. simpl. rewrite app_nil_r. reflexivity.
-  - simpl in HE. inversion HE as [|e ? E' ? He HE']; subst. simpl.
-    inversion Hok as [|? ? Hoka Hok']; subst. simpl in Hnd. inversion Hnd as [|? ? Hnotin Hnd']; subst.
-    assert (Hstep : orient_step ns D0 e = D0 ++ [gan a]).
-    { unfold orient_step. rewrite (orient_pair_export a e Hoka He). simpl fst. simpl snd.
-      assert (X : existsb (same_arc (ra_u (gan a)) (ra_v (gan a))) D0 = false).
-      { apply not_true_is_false. intros X. apply existsb_exists in X. destruct X as (x & Ix & Hx).
-        unfold same_arc in Hx. apply andb_true_iff in Hx. destruct Hx as [H1 H2]. apply N.eqb_eq in H1, H2.
-        apply (Hfree x a Ix (or_introl eq_refl)). split; assumption. }
-      rewrite X. destruct He as (Hr & Hst & _). rewrite Hr, Hst, rarc_eta. reflexivity. }
-    rewrite Hstep. rewrite (IH Hok' Hnd' E' (D0 ++ [gan a]) HE').
-    + rewrite <- app_assoc. reflexivity.
-    + intros x a' Ix Ia' [H1 H2]. apply in_app_iff in Ix. destruct Ix as [Ix|[<-|[]]].
-      * apply (Hfree x a' Ix (or_intror Ia')). split; assumption.
-      * apply Hnotin. rewrite (gan_pair_inj a a' Hoka (proj1 (Forall_forall _ _) Hok' a' Ia') H1 H2).
-        apply (in_map (fun a => (a_species a, a_rxn a, a_role a))). exact Ia'.
-Qed.
-
-(** an undirected (multi)graph with the nodes and incidences of the export, each incidence listed in either orientation, is
-    turned by _as_bipartite into exactly the directed export, hence gives the label-level complex graph *)
-Theorem undirected_refine E : Forall2 reor E (rg_arcs G) -> net <> [] -> species_set net iso <> [] ->
-  as_bipartite_undirected (RG ns E) = G /\
-  complex_graph_nodes (as_bipartite_undirected (RG ns E)) = Some (complex_graph net iso).
-Proof.
-  intros HE NE SE.
-  assert (EQ : as_bipartite_undirected (RG ns E) = G).
-  { unfold as_bipartite_undirected, orient. simpl rg_nodes. simpl rg_arcs.
-    rewrite (orient_fold (bip_arcs net)); [reflexivity| | |exact HE|intros x a []].
-    - apply Forall_forall. exact okA_bip.
-    - exact keys_nodup. }
-  split; [exact EQ|]. rewrite EQ. apply nodes_refine; assumption.
-Qed.
-End Orient.
 
 (* ------------------------------------------------------------------ sides that are dicts give distinct incidences *)
 
@@ -483,6 +363,200 @@ Proof.
   f_equal. apply fold_cstepN_ext. exact V.
 Qed.
 
+(* ------------------------------------------------------------------ the order of the arcs plays no part either *)
+
+Lemma node_vec_len G ro r : length (node_vec G ro r) = length (species_index G).
+Proof.
+  set (n := length (species_index G)).
+  pose proof (acc_fold (species_index G) r n (species_index_bound G) (incident (rg_arcs G) r) (repeat 0%Z n, repeat 0%Z n)
+                (repeat_length _ _) (repeat_length _ _)) as (L1 & L2 & _).
+  unfold node_vec, node_vecs. fold n. destruct ro; assumption.
+Qed.
+
+Lemma node_vec_ext ns A A' :
+  (forall ro r i, i < length (species_index (RG ns A)) ->
+     csum (contrib (species_index (RG ns A)) r ro i) (incident A' r) = csum (contrib (species_index (RG ns A)) r ro i) (incident A r)) ->
+  forall ro r, node_vec (RG ns A') ro r = node_vec (RG ns A) ro r.
+Proof.
+  intros H ro r. assert (SI : species_index (RG ns A') = species_index (RG ns A)) by reflexivity.
+  apply (nth_ext _ _ 0%Z 0%Z); [rewrite !node_vec_len, SI; reflexivity|].
+  intros i Hi. rewrite node_vec_len, SI in Hi.
+  rewrite (proj2 (node_vec_nth (RG ns A') ro r i (eq_ind_r (fun t => i < length t) Hi SI))).
+  rewrite (proj2 (node_vec_nth (RG ns A) ro r i Hi)). rewrite SI. simpl rg_arcs. apply H. exact Hi.
+Qed.
+
+Lemma complex_graph_nodes_ext ns A A' : (forall ro r, node_vec (RG ns A') ro r = node_vec (RG ns A) ro r) ->
+  complex_graph_nodes (RG ns A') = complex_graph_nodes (RG ns A).
+Proof.
+  intros V. unfold complex_graph_nodes.
+  change (species_nodes (RG ns A')) with (species_nodes (RG ns A)). change (reaction_nodes (RG ns A')) with (reaction_nodes (RG ns A)).
+  destruct (species_nodes (RG ns A)); [reflexivity|]. destruct (reaction_nodes (RG ns A)); [reflexivity|].
+  f_equal. apply fold_cstepN_ext. exact V.
+Qed.
+
+Lemma csum_perm {A} (f : A -> Z) l l' : Permutation l l' -> csum f l = csum f l'.
+Proof. induction 1; simpl; lia. Qed.
+
+(** ... so the vectors and the complex graph depend only on the MULTISET of incidences *)
+Theorem arc_order_irrelevant ns A A' : Permutation A A' ->
+  (forall ro r, node_vec (RG ns A') ro r = node_vec (RG ns A) ro r) /\
+  complex_graph_nodes (RG ns A') = complex_graph_nodes (RG ns A).
+Proof.
+  intros P. assert (V : forall ro r, node_vec (RG ns A') ro r = node_vec (RG ns A) ro r).
+  { apply node_vec_ext. intros ro r i _. rewrite !incident_csum. symmetry. apply csum_perm. exact P. }
+  split; [exact V|apply complex_graph_nodes_ext; exact V].
+Qed.
+
+Lemma forall2_perm_map {A B C} (R : A -> B -> Prop) (g : C -> B) E E0 : Permutation E E0 ->
+  forall L, Forall2 R E0 (map g L) -> exists L', Permutation L' L /\ Forall2 R E (map g L').
+Proof.
+  induction 1 as [|x l l' P IH|x y l|l l1 l2 P1 IH1 P2 IH2]; intros L H.
+  - destruct L; inversion H. exists []. split; constructor.
+  - destruct L as [|c L]; inversion H; subst. destruct (IH L H5) as (L' & PL & F). exists (c :: L'). split; [constructor; exact PL|constructor; assumption].
+  - destruct L as [|c [|d L]]; inversion H as [|? ? ? ? Hx H']; subst; inversion H' as [|? ? ? ? Hy H'']; subst.
+    exists (d :: c :: L). split; [apply perm_swap|constructor; [exact Hy|constructor; [exact Hx|exact H'']]].
+  - destruct (IH2 L H) as (L1 & PL1 & F1). destruct (IH1 L1 F1) as (L2 & PL2 & F2). exists L2. split; [eapply Permutation_trans; eassumption|exact F2].
+Qed.
+
+(* ------------------------------------------------------------------ undirected input: orientation by role *)
+
+Lemma find_app_none {A} (p : A -> bool) l1 l2 : (forall x, In x l1 -> p x = false) -> find p (l1 ++ l2) = find p l2.
+Proof.
+  induction l1 as [|a l1 IH]; intros H; simpl; [reflexivity|]. rewrite (H a (or_introl eq_refl)). apply IH.
+  intros x I. apply H. right. exact I.
+Qed.
+Lemma find_map_some {A B} (p : B -> bool) (g : A -> B) l rest x : In x l -> p (g x) = true ->
+  exists x', In x' l /\ p (g x') = true /\ find p (map g l ++ rest) = Some (g x').
+Proof.
+  induction l as [|a l IH]; intros I Hp; [destruct I|]. simpl. destruct (p (g a)) eqn:E.
+  - exists a. split; [left; reflexivity|]. split; [exact E|reflexivity].
+  - destruct I as [->|I]; [congruence|]. destruct (IH I Hp) as (x' & I' & Hp' & F). exists x'. split; [right; exact I'|]. split; assumption.
+Qed.
+
+(** an undirected edge is a re-orientation of a directed arc: same attributes, same two ends *)
+Definition reor (e x : rarc) : Prop :=
+  ra_role e = ra_role x /\ ra_stoich e = ra_stoich x /\
+  ((ra_u e = ra_u x /\ ra_v e = ra_v x) \/ (ra_u e = ra_v x /\ ra_v e = ra_u x)).
+
+Section Orient.
+Variables (ids idr : str -> N) (net : list rxn) (iso : list str).
+Hypothesis ids_inj : forall s s', In s (species_set net iso) -> In s' (species_set net iso) -> ids s = ids s' -> s = s'.
+Hypothesis idr_inj : forall e e', In e net -> In e' net -> idr (rid e) = idr (rid e') -> rid e = rid e'.
+Hypothesis disjoint : forall s e, In s (species_set net iso) -> In e net -> ids s <> idr (rid e).
+(** the sides are dicts: no two incidences with the same species, reaction and role *)
+Hypothesis keys_nodup : NoDup (map (fun a => (a_species a, a_rxn a, a_role a)) (bip_arcs net)).
+
+Let G := raw_export ids idr net iso.
+Let ns := rg_nodes G.
+Notation gsn := (gsn ids).
+Notation grn := (grn idr).
+Notation gan := (gan ids idr).
+
+Lemma ns_eq : ns = map gsn (species_set net iso) ++ map grn (edges_sorted net).
+Proof. reflexivity. Qed.
+
+Lemma is_rxn_species s : In s (species_set net iso) -> u_is_rxn ns (ids s) = false.
+Proof.
+  intros I. unfold u_is_rxn, node_of. rewrite ns_eq.
+  destruct (find_map_some (fun n => N.eqb (rn_id n) (ids s)) gsn (species_set net iso) (map grn (edges_sorted net)) s I (N.eqb_refl _))
+    as (s' & _ & _ & ->). reflexivity.
+Qed.
+Lemma is_rxn_reaction e : In e net -> u_is_rxn ns (idr (rid e)) = true.
+Proof.
+  intros I. unfold u_is_rxn, node_of. rewrite ns_eq. rewrite find_app_none.
+  - rewrite <- (app_nil_r (map grn (edges_sorted net))).
+    destruct (find_map_some (fun n => N.eqb (rn_id n) (idr (rid e))) grn (edges_sorted net) [] e
+                (proj2 (in_edges_sorted net e) I) (N.eqb_refl _)) as (e' & _ & _ & ->). reflexivity.
+  - intros x Ix. apply in_map_iff in Ix. destruct Ix as (s & <- & Is). simpl. apply N.eqb_neq. apply disjoint; assumption.
+Qed.
+
+Definition okA (a : arc) : Prop := In (a_species a) (species_set net iso) /\ exists e, In e net /\ a_rxn a = rid e.
+Lemma okA_bip a : In a (bip_arcs net) -> okA a.
+Proof.
+  intros I. destruct (proj1 (Forall_forall _ _) (C17_Nodes.arcs_ok idr net iso idr_inj) a I) as (Is & e & Ie & Er).
+  split; [apply sp_in; exact Is|]. exists e. split; [apply rx_in; exact Ie|exact Er].
+Qed.
+
+Lemma orient_pair_export a e : okA a -> reor e (gan a) -> orient_pair ns e = (ra_u (gan a), ra_v (gan a)).
+Proof.
+  intros (Is & e' & Ie' & Er) (Hr & _ & Hor). unfold orient_pair. rewrite Hr.
+  pose proof (is_rxn_species _ Is) as Hs. pose proof (is_rxn_reaction _ Ie') as Hx. rewrite <- Er in Hx.
+  unfold C19_NodesProof.gan in *. destruct (a_role a); simpl in *; destruct Hor as [[-> ->]|[-> ->]]; rewrite ?Hs, ?Hx; reflexivity.
+Qed.
+
+Lemma gan_pair_inj a a' : okA a -> okA a' ->
+  ra_u (gan a) = ra_u (gan a') -> ra_v (gan a) = ra_v (gan a') ->
+  (a_species a, a_rxn a, a_role a) = (a_species a', a_rxn a', a_role a').
+Proof.
+  intros (Is & e & Ie & Er) (Is' & e' & Ie' & Er'). unfold C19_NodesProof.gan.
+  destruct (a_role a), (a_role a'); simpl; intros H1 H2.
+  - rewrite (ids_inj _ _ Is Is' H1). rewrite Er, Er' in *. rewrite (idr_inj _ _ Ie Ie' H2). reflexivity.
+  - exfalso. rewrite Er' in H1. exact (disjoint _ _ Is Ie' H1).
+  - exfalso. rewrite Er in H1. exact (disjoint _ _ Is' Ie (eq_sym H1)).
+  - rewrite (ids_inj _ _ Is Is' H2). rewrite Er, Er' in *. rewrite (idr_inj _ _ Ie Ie' H1). reflexivity.
+Qed.
+
+Lemma rarc_eta x : RArc (ra_u x) (ra_v x) (ra_role x) (ra_stoich x) = x.
+Proof. destruct x; reflexivity. Qed.
+
+Lemma orient_fold L : Forall okA L -> NoDup (map (fun a => (a_species a, a_rxn a, a_role a)) L) ->
+  forall E D0, Forall2 reor E (map gan L) ->
+  (forall x a, In x D0 -> In a L -> ~ (ra_u x = ra_u (gan a) /\ ra_v x = ra_v (gan a))) ->
+  fold_left (orient_step ns) E D0 = D0 ++ map gan L.
+Proof.
+  induction L as [|a L IH]; intros Hok Hnd E D0 HE Hfree.
+  - inversion HE; subst. simpl. rewrite app_nil_r. reflexivity.
+  - simpl in HE. inversion HE as [|e ? E' ? He HE']; subst. simpl.
+    inversion Hok as [|? ? Hoka Hok']; subst. simpl in Hnd. inversion Hnd as [|? ? Hnotin Hnd']; subst.
+    assert (Hstep : orient_step ns D0 e = D0 ++ [gan a]).
+    { unfold orient_step. rewrite (orient_pair_export a e Hoka He). simpl fst. simpl snd.
+      assert (X : existsb (same_arc (ra_u (gan a)) (ra_v (gan a))) D0 = false).
+      { apply not_true_is_false. intros X. apply existsb_exists in X. destruct X as (x & Ix & Hx).
+        unfold same_arc in Hx. apply andb_true_iff in Hx. destruct Hx as [H1 H2]. apply N.eqb_eq in H1, H2.
+        apply (Hfree x a Ix (or_introl eq_refl)). split; assumption. }
+      rewrite X. destruct He as (Hr & Hst & _). rewrite Hr, Hst, rarc_eta. reflexivity. }
+    rewrite Hstep. rewrite (IH Hok' Hnd' E' (D0 ++ [gan a]) HE').
+    + rewrite <- app_assoc. reflexivity.
+    + intros x a' Ix Ia' [H1 H2]. apply in_app_iff in Ix. destruct Ix as [Ix|[<-|[]]].
+      * apply (Hfree x a' Ix (or_intror Ia')). split; assumption.
+      * apply Hnotin. rewrite (gan_pair_inj a a' Hoka (proj1 (Forall_forall _ _) Hok' a' Ia') H1 H2).
+        apply (in_map (fun a => (a_species a, a_rxn a, a_role a))). exact Ia'.
+Qed.
+
+(** an undirected (multi)graph with the nodes and incidences of the export, each incidence listed in either orientation, is
+    turned by _as_bipartite into exactly the directed export, hence gives the label-level complex graph *)
+Theorem undirected_refine E : Forall2 reor E (rg_arcs G) -> net <> [] -> species_set net iso <> [] ->
+  as_bipartite_undirected (RG ns E) = G /\
+  complex_graph_nodes (as_bipartite_undirected (RG ns E)) = Some (complex_graph net iso).
+Proof.
+  intros HE NE SE.
+  assert (EQ : as_bipartite_undirected (RG ns E) = G).
+  { unfold as_bipartite_undirected, orient. simpl rg_nodes. simpl rg_arcs.
+    rewrite (orient_fold (bip_arcs net)); [reflexivity| | |exact HE|intros x a []].
+    - apply Forall_forall. exact okA_bip.
+    - exact keys_nodup. }
+  split; [exact EQ|]. rewrite EQ. apply nodes_refine; assumption.
+Qed.
+(** the same when the incidences are listed in ANY order *)
+Theorem undirected_refine_perm E E0 : Permutation E E0 -> Forall2 reor E0 (rg_arcs G) -> net <> [] -> species_set net iso <> [] ->
+  complex_graph_nodes (as_bipartite_undirected (RG ns E)) = Some (complex_graph net iso).
+Proof.
+  intros P HE NE SE. unfold G, raw_export in HE. simpl rg_arcs in HE.
+  change (map (fun a => match a_role a with
+    | Reactant => RArc (ids (a_species a)) (idr (a_rxn a)) (Some Reactant) (Some (a_stoich a))
+    | Product => RArc (idr (a_rxn a)) (ids (a_species a)) (Some Product) (Some (a_stoich a)) end) (bip_arcs net))
+    with (map gan (bip_arcs net)) in HE.
+  destruct (forall2_perm_map reor gan E E0 P (bip_arcs net) HE) as (L' & PL & F).
+  assert (EQ : as_bipartite_undirected (RG ns E) = RG ns (map gan L')).
+  { unfold as_bipartite_undirected, orient. simpl rg_nodes. simpl rg_arcs. f_equal.
+    rewrite (orient_fold L'); [reflexivity| | |exact F|intros x a []].
+    - apply Forall_forall. intros a Ia. apply okA_bip. eapply Permutation_in; [exact PL|exact Ia].
+    - eapply Permutation_NoDup; [apply Permutation_map, Permutation_sym, PL|exact keys_nodup]. }
+  rewrite EQ. rewrite (proj2 (arc_order_irrelevant ns (map gan (bip_arcs net)) (map gan L') (Permutation_map gan (Permutation_sym PL)))).
+  apply (nodes_refine ids idr net iso ids_inj idr_inj disjoint NE SE).
+Qed.
+End Orient.
+
 (* non-vacuity: A + B <-> C, C -> 2A with species identifiers 11, 2, 10 and reaction identifiers 7, 3, 5 *)
 Definition exn_G : rgraph :=
   raw_export (look (species_set C19_Complexes.ex_net []) [11%N; 2%N; 10%N])
@@ -599,3 +673,9 @@ Proof.
   - rewrite species_order_eq. reflexivity.
   - apply Permutation_length. eapply Permutation_trans; [apply edges_sorted_perm|apply Permutation_sym, reaction_order_perm].
 Qed.
+
+Example ex_arc_order :
+  complex_graph_nodes (RG (rg_nodes exn_raw) (rev (rg_arcs exn_raw))) = complex_graph_nodes exn_raw /\ rev (rg_arcs exn_raw) <> rg_arcs exn_raw /\
+  complex_graph_nodes (as_bipartite_undirected (RG (rg_nodes exn_G) (rev exn_U))) = Some (complex_graph C19_Complexes.ex_net []) /\
+  as_bipartite_undirected (RG (rg_nodes exn_G) (rev exn_U)) <> exn_G.
+Proof. split; [vm_compute; reflexivity|]. split; [vm_compute; discriminate|]. split; [vm_compute; reflexivity|vm_compute; discriminate]. Qed.
